@@ -100,6 +100,10 @@ def family(ctx, name, module, cfg, record, per_segment, rnd, budget):
             if tried >= budget:
                 break
             p = os.path.join(ctx.work, "%s_c%d.ndjson" % (name, tried))
+            if '"op":"reset"' in seg[0]:
+                # a segment cut out of a concatenated trace: close it as the recording does, so that the end-of-schedule
+                # conditions (exactly one winner) are evaluated on it
+                new = new + ['{"op":"reset","schedule":"end"}']
             open(p, "w").write("\n".join(new) + "\n")
             ok = validate(ctx, module, cfg, p)
             tried += 1
